@@ -123,10 +123,12 @@ def multidef_lattice():
     two definitions are merged in definition order, each under its own inherited dependencies; visibility is the
     maximum over the definitions that have a prompt."""
     out = []
-    for typ, p1, p2, rng2, sel in itertools.product(("bool", "int", "string"), (0, 1), (0, 1, 2), (0, 1), (0, 1)):
+    for typ, p1, p2, rng2, sel, menu_first in itertools.product(("bool", "int", "string"), (0, 1), (0, 1, 2), (0, 1), (0, 1), (0, 1)):
         if rng2 and typ != "int":
             continue
         if sel and typ != "bool":
+            continue
+        if menu_first and (sel or rng2):
             continue
         lit = {"bool": (["y"], ["n"]), "int": (C("3"), C("7")), "string": (C("one"), C("two"))}[typ]
         users = {"bool": [NOVAL, "y", "n"], "int": [NOVAL, "5", "100"], "string": [NOVAL, "x", ""]}[typ]
@@ -144,14 +146,24 @@ def multidef_lattice():
         d1 = mk_config("T", typ, prompt=(Y if p1 else None), defaults=[{"v": lit[0], "c": Y}])
         d2 = mk_config("T", typ, prompt=(None if p2 == 0 else Y if p2 == 1 else S("P")), defaults=[{"v": lit[1], "c": Y}],
                        ranges=([{"lo": C("1"), "hi": C("10"), "c": Y}] if rng2 else []))
-        ents.append({"k": "if", "c": S("G1"), "children": [d1]})
-        ents.append({"k": "menu", "title": "second", "dep": S("G2"), "visif": Y, "children": [d2]})
+        # another settable option between the two definitions (output order follows the first definition)
+        mid = mk_config("MID", "int", prompt=Y, defaults=[{"v": C("1"), "c": Y}])
+        if menu_first:
+            ents.append({"k": "menu", "title": "first", "dep": S("G1"), "visif": Y, "children": [d1]})
+            ents.append(mid)
+            ents.append({"k": "if", "c": S("G2"), "children": [d2]})
+        else:
+            ents.append({"k": "if", "c": S("G1"), "children": [d1]})
+            ents.append(mid)
+            ents.append({"k": "menu", "title": "second", "dep": S("G2"), "visif": Y, "children": [d2]})
         order.append(["s", "T"])
+        order.append(["s", "MID"])
+        vars_.append({"n": "MID", "kind": "sym", "cands": [NOVAL, "9"]})
         vars_.append({"n": "T", "kind": "sym", "cands": users})
         obs_c = S("T") if typ == "bool" else ["=", S("T"), lit[1] if typ != "bool" else C("y")]
         ents.append(mk_config("OBS", "bool", prompt=None, defaults=[{"v": Y, "c": obs_c}]))
         order.append(["s", "OBS"])
-        out.append({"prog": ents, "ord": order, "vars": vars_, "family": "F-multidef", "point": dict(type=typ, prompt1=p1, prompt2=p2, range2=rng2, select=sel)})
+        out.append({"prog": ents, "ord": order, "vars": vars_, "family": "F-multidef", "point": dict(type=typ, prompt1=p1, prompt2=p2, range2=rng2, select=sel, menu_first=menu_first)})
     return out
 
 
